@@ -106,23 +106,35 @@ func (e *Exec) disable() {
 // ended here with runtime.Goexit (their deferred calls run) and their hook points are returned: a
 // harness whose oracle promises "nothing is left behind" must treat a non-empty result as a leak.
 func (e *Exec) Teardown() (leaked []string) {
-	synctest.Wait()
 	on.Store(false)
-	mu.Lock()
-	ws := e.parked
-	e.parked = nil
-	mu.Unlock()
-	for _, w := range ws {
-		if w.cond != nil && !w.cond() {
-			leaked = append(leaked, w.name+"/"+w.label)
-			w.ch <- -1
-		} else {
-			w.ch <- 0
+	var blocked []*waiter
+	for {
+		synctest.Wait()
+		mu.Lock()
+		ws := append(blocked, e.parked...)
+		e.parked = nil
+		mu.Unlock()
+		blocked = nil
+		released := 0
+		for _, w := range ws {
+			if w.cond == nil || w.cond() {
+				released++
+				w.ch <- 0
+			} else {
+				blocked = append(blocked, w)
+			}
 		}
+		if released == 0 {
+			break
+		}
+	}
+	// every other goroutine of the bubble is durably blocked and these conditions are still false
+	for _, w := range blocked {
+		leaked = append(leaked, w.name+"/"+w.label)
+		w.ch <- -1
 	}
 	sort.Strings(leaked)
 	e.Leaked = leaked
-	// goroutines released above may park again only if hooks were still on; they are off now.
 	synctest.Wait()
 	mu.Lock()
 	if cur == e {
@@ -130,6 +142,20 @@ func (e *Exec) Teardown() (leaked []string) {
 	}
 	mu.Unlock()
 	return leaked
+}
+
+// ShimLeaks keeps, of what Teardown returned, the goroutines that were blocked inside the code under test
+// (at a lock, wait group or condition variable of a shimmed package), dropping harness threads parked at
+// a harness window that never opened.
+func ShimLeaks(leaked []string) (out []string) {
+	for _, l := range leaked {
+		for _, sfx := range []string{"/Mutex.Lock", "/RWMutex.Lock", "/RWMutex.RLock", "/WaitGroup.Wait", "/Cond.Wait"} {
+			if strings.HasSuffix(l, sfx) {
+				out = append(out, l)
+			}
+		}
+	}
+	return
 }
 
 func goid() uint64 {
